@@ -113,7 +113,7 @@ pub fn gen_case(ch: &mut Chooser) -> Case {
             match ch.below(4) {
                 0 | 1 => Truth::Mapping(pick(ch), pick(ch)),
                 2 => Truth::DynArray(pick(ch)),
-                _ => Truth::FixedArray(pick(ch), *ch.pick(&[2u64, 3, 10])),
+                _ => Truth::FixedArray(pick(ch), *ch.pick(&[2u64, 3, 10, 1000, 1001, 1002, 1003])),
             }
         } else if ch.chance(1, 10) {
             Truth::DynBytes
@@ -259,6 +259,12 @@ pub fn gen_case(ch: &mut Chooser) -> Case {
                 Truth::DynArray(_) if ch.chance(1, 2) => ("signed-length", J::Word(*ch.pick(&[None, Some(256usize)]), "Signed".to_string())),
                 Truth::DynBytes if ch.chance(1, 2) => ("signed-length", J::Word(*ch.pick(&[None, Some(256usize)]), "Signed".to_string())),
                 Truth::DynBytes => ("mapping-vs-array", J::Mapping(other_var, ch.below(nvars))),
+                // two fixed arrays of different lengths (C14: only arrays of equal length are joined), also
+                // lengths that agree in their low 64 bits
+                Truth::FixedArray(ec, n) if ch.chance(1, 2) => {
+                    let n2 = *[2u64, 3, 10, 1000, 1001, 1002, 1003].iter().filter(|x| **x != *n).nth(ch.below(6)).unwrap();
+                    ("array-length", J::FixedArray(*ch.pick(&vars_of[*ec]), n2))
+                }
                 Truth::DynArray(_) | Truth::FixedArray(..) => ("mapping-vs-array", J::Mapping(other_var, ch.below(nvars))),
             };
             js.push((v2, j));
@@ -437,7 +443,7 @@ pub fn check_case(c: &Case, acc: &mut Acc) -> CaseResult {
                 }
             }
             Truth::FixedArray(ec, n) => match got {
-                TE::FixedArray { element, length } if *length == ethnum::U256::from(*n) => {
+                TE::FixedArray { element, length } if *length == crate::props::c14::fa_len(*n) => {
                     let e0 = first_var_of(&c.class_of, *ec);
                     if root_of(&mut root, element.index(), &vars) != root(e0) {
                         return fail("a fixed array's element is not unified with the evidence's element".into(), format!("variable {i}: {got:?}"));
